@@ -113,6 +113,37 @@ def run(ctx):
             if exact_expected:
                 ctx.check(float(ymin) == g['minv'] and float(ymax) == g['maxv'], 'optima_tt:exact',
                           'optima_tt(k=%d): (min, max) = (%s, %s), true (%s, %s)' % (k, ymin, ymax, g['minv'], g['maxv']), case=case)
+        # --- scale covariance: the same tensor times an exact power of two (in one core, or spread over the cores); far from
+        #     1 the entries, and in particular their squares, leave the ordinary range although the tensor is representable
+        if rng.random() < 0.3 and g['maxabs'] > 0:
+            sp = int(rng.choice([800, -560, 300, -300]))
+            if rng.random() < 0.5:
+                j_ = int(rng.integers(len(n)))
+                Ys = [G * (2.0 ** sp if q_ == j_ else 1.) for q_, G in enumerate(Y)]
+                how_ = 'core %d times 2^%d' % (j_, sp)
+            else:
+                q_, rem = divmod(sp, len(n))
+                Ys = [G * 2.0 ** (q_ + (rem if t_ == 0 else 0)) for t_, G in enumerate(Y)]
+                how_ = 'cores times 2^%d in total' % sp
+            for l2r in (True, False):
+                Is = teneva.optima_tt_beam(Ys, k, l2r=l2r, ret_all=True)
+                gs = frozenset(tuple(int(x) for x in row) for row in np.asarray(Is))
+                okb = all(len(t_) == len(n) and all(0 <= x < q for x, q in zip(t_, n)) for t_ in gs)
+                if l2r and g['r'] >= 0:
+                    okb = okb and gs in set(g['cands'])
+                if exact_expected and okb:
+                    okb = max(abs(Fd[t_]) for t_ in gs) == g['maxabs']
+                ctx.check(okb, 'optima_tt_beam:scale', 'optima_tt_beam(k=%d, l2r=%s) on the tensor with %s keeps %s; admissible %s, maximum modulus expected=%s'
+                          % (k, l2r, how_, sorted(gs), [sorted(s_) for s_ in set(g['cands'])][:2], exact_expected), case=case)
+            i_, y_ = teneva.optima_tt_max(Ys, k)
+            oks = np.asarray(i_).shape == (len(n),) and all(0 <= int(a_) < q for a_, q in zip(np.asarray(i_), n))
+            if oks:
+                ref_ = Fd[tuple(int(a_) for a_ in np.asarray(i_))]
+                oks = float(y_) == float(np.ldexp(ref_, sp)) or abs(float(y_) / 2.0 ** sp - ref_) <= 1e-9 * (1 + abs(ref_))
+                if exact_expected:
+                    oks = oks and abs(ref_) == g['maxabs']
+            ctx.check(bool(oks), 'optima_tt_max:scale', 'optima_tt_max(k=%d) on the tensor with %s: index %s value %r (maximum modulus %s * 2^%d expected=%s)'
+                      % (k, how_, np.asarray(i_).tolist(), y_, g['maxabs'], sp, exact_expected), case=case)
         # --- maxvol-based search: consistency only
         if len(n) >= 2 and rng.random() < 0.25:
             try:
@@ -167,6 +198,23 @@ def run(ctx):
             ctx.check(first_ok, 'optima_tt:exact', 'rank-1 tensor, k=%d: the maximum-modulus extreme is wrong' % k_)
             ctx.check(second_ok, 'optima_tt:rank1-second-extreme', 'rank-1 tensor of shape %s, k=%d: (min, max) = (%r, %r), true (%r, %r)'
                       % ([G.shape[1] for G in Yr], k_, ymin, ymax, Fr.min(), Fr.max()))
+    # --- rank-1 tensors with hundreds of modes: every entry is an ordinary number, the Frobenius norm is not
+    for t in range(4 if quick else 24):
+        d_ = [250, 200, 120, 300][t % 4]
+        nk = [64, 128, 32, 16][t % 4]
+        Yh = [rng.normal(size=(1, nk, 1)) * [2.2, 1.9, 3.0, 2.5][t % 4] for _ in range(d_)]
+        if t % 2:
+            Yh = [G * (1e-1 if q_ % 2 else 1.) for q_, G in enumerate(Yh)]
+        arg = [int(np.argmax(np.abs(G[0, :, 0]))) for G in Yh]
+        logmax = float(sum(np.log10(np.abs(G[0, a_, 0])) for G, a_ in zip(Yh, arg)))
+        ctx.case(key=('rank1-high-d', d_, nk, t, ctx.seed), nontrivial=True)
+        for l2r in (True, False):
+            for k_ in (1, 3):
+                Ih = np.asarray(teneva.optima_tt_beam(Yh, k_, l2r=l2r))
+                ctx.check(Ih.shape == (d_,) and [int(x) for x in Ih] == arg, 'optima_tt_beam:high-d',
+                          'rank-1 tensor with d=%d, n=%d (largest entry 1e%.0f): optima_tt_beam(k=%d, l2r=%s) does not return the per-mode maximisers' % (d_, nk, logmax, k_, l2r))
+        ih, yh = teneva.optima_tt_max(Yh, 2)
+        ctx.check([int(x) for x in np.asarray(ih)] == arg, 'optima_tt_max:high-d', 'rank-1 tensor with d=%d, n=%d: optima_tt_max misses the maximum modulus' % (d_, nk))
     # --- constant tensor represented with TT-rank 2 (rank-deficient unfoldings): every routine must cope
     Cst = teneva.add(teneva.const([3, 3, 3], 1.), teneva.const([3, 3, 3], 2.))
     Fc = F.dense(Cst)
